@@ -61,7 +61,7 @@ var requestedAll = []string{"", "2026-07-28", "2025-11-25", "2025-06-18", "2025-
 func allLinks() []wire.Config {
 	var out []wire.Config
 	for _, k := range []string{wire.InMem, wire.Pipe} {
-		for _, sub := range []string{"", "legacy", "legacy-old"} {
+		for _, sub := range []string{"", "legacy", "legacy-old", "none"} {
 			out = append(out, wire.Config{Kind: k, Subset: sub})
 		}
 	}
